@@ -190,6 +190,7 @@ structure Lexed where
   toks : List Tok
   bodies : List (List Char)
   status : LexEnd
+  inComment : Bool := false     -- the text ends inside a comment (matters for alias values)
   deriving Repr
 
 /-- End of the text pulled so far.  `eof = true`: the input itself has ended, so whatever is still
@@ -208,7 +209,8 @@ def lexAll (text : List Char) (eof : Bool) : Lexed :=
     if s.bad then .error
     else if open_ || !s.pend.isEmpty then (if eof then .error else .incomplete)
     else .ok
-  { toks := s'.toks.reverse, bodies := s'.bodies.reverse, status }
+  { toks := s'.toks.reverse, bodies := s'.bodies.reverse, status,
+    inComment := match s.mode with | .cmt => true | _ => false }
 
 /-! ### Commands -/
 
@@ -261,6 +263,12 @@ def tokKeyword (t : Tok) : Option String :=
                   | none => none)
   | _ => none
 
+/-- the rest of the token stream from the next newline on -/
+def dropLine : List Tok → List Tok
+  | [] => []
+  | .nl :: rest => .nl :: rest
+  | _ :: rest => dropLine rest
+
 /-- alias substitution of the token in command-name position (`Parser::take_token_auto` /
     `substitute_alias`): the value is lexed and spliced in; a name is never substituted inside its own
     replacement -/
@@ -272,11 +280,14 @@ def substAlias (cfg : PCfg) : Nat → List Tok → List Tok
        if keywords.contains name || banned.contains name then .word w banned :: rest else
        (match lookupAlias cfg.aliases name with
         | some value =>
-          let sub := (lexAll value.toList true).toks.map fun t =>
+          let lx := lexAll value.toList true
+          let sub := lx.toks.map fun t =>
             match t with
             | .word w' b' => Tok.word w' (name :: banned ++ b')
             | t => t
-          substAlias cfg n (sub ++ rest)
+          -- the replacement is text spliced into the line: a comment it opens runs to the end of
+          -- the line and swallows what follows the alias there
+          substAlias cfg n (sub ++ (if lx.inComment then dropLine rest else rest))
         | none => .word w banned :: rest)
      | none => .word w banned :: rest)
   | _, ts => ts
